@@ -18,6 +18,7 @@ class Rig:
         self.slave = slave
         self.reply = reply
         self.net.send_message = self._send
+        self.nrx = 0
         self.lss = self.net.lss
 
     def _send(self, can_id, data, remote=False):
@@ -29,7 +30,14 @@ class Rig:
         else:
             resps = []
         for r in resps:
-            self.net.notify(RX, r, 0.0)
+            # the interface reuses its receive buffer once notify() has returned (see C03): a consumer that keeps
+            # the frame for another thread must have copied it
+            buf = sx.new_bytearray(sx.items(r))
+            self.net.notify(RX, buf, 0.0)
+            self.nrx += 1
+            junk = sx.items(sx.fresh_bytes("rxbuf%d" % self.nrx, len(buf)))
+            for i in range(len(buf)):
+                buf[i] = junk[i]
 
 
 def _frame_ok(rig, expect, tag):
